@@ -53,8 +53,13 @@ class C10(Prop):
                        "conc.interleaved", "conc.thread_scheduled"]
 
     def header(self, rng, tier, index):
-        return {"world": {"mode": "wrapper", "use_simgit": True}, "sessions": ["sa", "sb", "sc"],
-                "cfg": {"n_clones": rng.choice([2, 2, 3]), "steps": rng.randint(8, 16 if tier == "quick" else 28),
+        # deployment mode: the wrapper, or (one run in five) plain git with git-ai's managed hooks in every clone
+        # (hooks mode is NOT drawn: a first try showed that plain `git fetch` syncs no notes there - no hook fires for a
+        # fetch - so "everyone pushed and then fetched" does not converge; multi-clone sync in hooks mode would need
+        # its own oracle and triage (DESIGN §0.4, "not built").  GAISIM_C10_HOOKS=1 switches it on for surveys.)
+        mode = "hooks" if (rng.random() < 0.2 and os.environ.get("GAISIM_C10_HOOKS")) else "wrapper"
+        return {"world": {"mode": mode, "use_simgit": True}, "sessions": ["sa", "sb", "sc"],
+                "cfg": {"n_clones": rng.choice([2, 2, 3]), "dead_remote": rng.choice([None, None, None, "backup", "zz-mirror"]), "steps": rng.randint(8, 16 if tier == "quick" else 28),
                         "early_clone": rng.random() < 0.6, "faults": rng.random() < 0.5,
                         "foreign": rng.randint(5, 9) if rng.random() < 0.3 else 0,
                         "conc": rng.random() < 0.4},
@@ -192,6 +197,15 @@ class C10(Prop):
             if not w.notes_list(remote):
                 ex.probe("first_sync_without_notes_ref")
             r = w.git(w.root, "clone", "-q", remote, dst)
+            if w.mode == "hooks" and os.path.isdir(dst):
+                w.ensure_hooks(dst)
+                ex.probe("mode.hooks")
+            dead = (ex.trace.get("cfg") or {}).get("dead_remote")
+            if dead and os.path.isdir(dst) and n != "a":
+                # a second remote that does not answer (an old mirror, a host that is down); its name sorts before or
+                # after 'origin'
+                w.raw_git(dst, "remote", "add", dead, "../nowhere-%s.git" % dead)
+                ex.probe("dead_remote")
             ex.repos[n] = dst
             st["pushed"][n] = True
             st["fetched_after"][n] = st["epoch"]
@@ -295,7 +309,9 @@ class C10(Prop):
                 argv = ["fetch", "-q", "origin"]
             else:
                 argv = ["pull", "-q", "--no-edit"] + (["--rebase"] if cmd == "pull_rebase" else ["--no-rebase"]) + ["origin", "main"]
-            cmds.append((n, [gitw] + argv, repo, {}))
+            from ..world import REAL_GIT
+            cmds.append((n, [gitw if w.mode in ("wrapper", "both") else REAL_GIT] + argv, repo,
+                         {} if w.mode in ("wrapper", "both") else {"GIT_AI_GLOBAL_GIT_HOOKS": "true"}))
         replaying = op.get("schedule") is not None
         run = run_concurrent(w, cmds, rng=None if replaying else random.Random(op["sched_seed"]),
                              choices=op.get("schedule") if replaying else None, policy=op.get("policy", "random"))
